@@ -771,6 +771,7 @@ func (r *beRun) modeEvict() {
 
 		wakes, needBefore := r.janitor.Wakes, len(r.needCalls)
 		evictMetricBefore := r.evictMetric()
+		otherMetricsBefore := r.workloadMetrics()
 
 		out.fault("clock_jump")
 
@@ -956,6 +957,17 @@ func (r *beRun) modeEvict() {
 			}
 		}
 
+		// the workload's own counters (reads, writes, deletes) belong to the workload: a cleanup / eviction cycle,
+		// during which no client operation ran, leaves them alone
+		if cfg.Stats {
+			after := r.workloadMetrics()
+			for _, name := range []string{"cache_delete", "cache_write", "cache_hit", "cache_miss", "cache_expired"} {
+				if after[name] != otherMetricsBefore[name] {
+					out.violate("C12.R4", class+" "+name+"-changed-by-cleanup-cycle", "%s went from %v to %v during a cleanup cycle in which no client operation ran (%d entries were evicted or purged)", name, otherMetricsBefore[name], after[name], len(removed))
+				}
+			}
+		}
+
 		for _, k := range removed {
 			delete(acc, k)
 		}
@@ -967,6 +979,19 @@ func (r *beRun) modeEvict() {
 
 	out.NonTrivial = cycles > 0
 	out.Outcome = fmt.Sprintf("cycles=%d n=%d", cycles, len(r.sc.Keys))
+}
+
+// workloadMetrics sums the counters that only client operations may move.
+func (r *beRun) workloadMetrics() map[string]float64 {
+	m := map[string]float64{}
+
+	for _, st := range r.stats {
+		if !st.set {
+			m[st.name] += st.val
+		}
+	}
+
+	return m
 }
 
 func (r *beRun) evictMetric() float64 {
